@@ -378,6 +378,22 @@ let oracle_c14_case script trace =
            if not (ps_veqb (ps_get_attr p pre) (ps_get_attr p post)) then
              fail (Printf.sprintf "restore-unmodified path=%s before=%s after=%s" (ps_key_hex p) (ps_canon (ps_get_attr p pre)) (ps_canon (ps_get_attr p post)))
          | _ -> ());
+        (* FRAME of RestoreAttribute(p) (C14_restore_frame; executable check in the glue, not an extracted predicate): every
+           original_attributes entry whose key is neither p nor below / above p TOKEN-wise (a plain string prefix such as
+           vars.os / vars.os_family does not count) keeps its entry, and the attribute at that key keeps its value -
+           whether the call reports success or not *)
+        (match Hashtbl.find_opt cur i, o with
+         | Some pre, Some post when !err = None ->
+           List.iter (fun (k, x) ->
+             if !err = None && not (ps_comparable p k) then begin
+               let kept = match post.ps_m_orig with Some d -> List.exists (fun (k', x') -> k' = k && ps_veqb x x') d | None -> false in
+               if not kept then
+                 fail (Printf.sprintf "restore-touches-sibling path=%s sibling=%s entry-lost-or-changed" (ps_key_hex p) (ps_key_hex k))
+               else if not (ps_veqb (ps_get_attr k pre) (ps_get_attr k post)) then
+                 fail (Printf.sprintf "restore-touches-sibling path=%s sibling=%s before=%s after=%s" (ps_key_hex p) (ps_key_hex k)
+                         (ps_canon (ps_get_attr k pre)) (ps_canon (ps_get_attr k post)))
+             end) (match pre.ps_m_orig with Some d -> d | None -> [])
+         | _ -> ());
         (match Hashtbl.find_opt initial i, o with
          | Some ini, Some post when ok && !err = None ->
            List.iter (fun ((j, q), (_, ov)) -> if j = i && q <> p && ps_comparable p q then ov := true) !open_mods;
